@@ -114,11 +114,13 @@ func (s *schemaSliceValidator) Validate(data interface{}) *Result {
 			result.mergeForSlice(val, i, validator.Validate(val.Index(i).Interface()))
 		}
 	}
+	// items given as a list is a tuple, also when the list is empty: every element is then beyond the tuple
+	isTuple := s.Items != nil && s.Items.Schemas != nil
 	if s.AdditionalItems != nil && itemsSize < size {
-		if s.Items != nil && len(s.Items.Schemas) > 0 && !s.AdditionalItems.Allows {
+		if isTuple && !s.AdditionalItems.Allows {
 			result.AddErrors(arrayDoesNotAllowAdditionalItemsMsg())
 		}
-		if s.AdditionalItems.Schema != nil && itemsSize > 0 {
+		if s.AdditionalItems.Schema != nil && isTuple {
 			// additionalItems only applies to the elements beyond a tuple of items
 			for i := itemsSize; i < size; i++ {
 				validator := newSchemaValidator(s.AdditionalItems.Schema, s.Root, fmt.Sprintf("%s.%d", s.Path, i), s.KnownFormats, s.Options)
